@@ -39,7 +39,16 @@ func c27GetNode(limit int) *testNode {
 			os.Unsetenv(strings.SplitN(kv, "=", 2)[0])
 		}
 	}
-	n, err := newTestNode(func(c *serf.Config) { c.QueryResponseSizeLimit = limit })
+	// other harnesses run in parallel on the same loopback range: an address may be taken
+	var n *testNode
+	var err error
+	for try := 0; try < 20; try++ {
+		n, err = newTestNode(func(c *serf.Config) { c.QueryResponseSizeLimit = limit })
+		if err == nil {
+			break
+		}
+		time.Sleep(50 * time.Millisecond)
+	}
 	if err != nil {
 		panic(err)
 	}
@@ -357,7 +366,7 @@ func c27Filter(rng *rand.Rand) string {
 
 func c27Gen(rng *rand.Rand, tier string) []Case {
 	var out []Case
-	nPure, nRun := 1500, 26
+	nPure, nRun := 800, 22
 	if tier == "thorough" {
 		nPure, nRun = 60000, 700
 	}
